@@ -35,7 +35,7 @@ TcpBased == tp \in {"tcp", "btcp", "tls", "btls", "utls", "utlst"}
 U == INSTANCE Utls WITH Clients <- {1}, UxReach <- {1}, srv <- "up", uxq <- <<>>, tlsq <- <<>>, leg <- <<"none">>, acc <- <<>>, uxerr <- FALSE
 LegNo(g) == IF g = "ux" THEN 1 ELSE IF g = "tls" THEN 2 ELSE 0
 \* scenarios in which nothing goes wrong: the peer accepts, both sides exchange their messages, one closes
-FaultFree == {"normal", "ctlflood", "garbage2", "longidle", "accfail"}
+FaultFree == {"normal", "ctlflood", "garbage2", "longidle", "accfail", "ctl3"}
 
 \* what the remote address does in each scenario (Peer of XcmEst) and the errno the documentation promises for it
 PeerOf(s) == CASE s \in FaultFree -> "accept" [] s = "refused" -> "refuse" [] s = "silent" -> "silent"
